@@ -71,4 +71,62 @@ def hasStream (fs : List QFrame) : Bool := fs.any fun f => match f with | .strea
 
 def hasCrypto (fs : List QFrame) : Bool := fs.any fun f => match f with | .crypto .. => true | _ => false
 
+/-! ### the handshake, at datagram level
+
+A handshake datagram (`DgH`) is a sequence of coalesced long-header packets of one direction with one capture time
+(RFC 9000 §12.2). The handshake of a connection is a list of such datagrams in capture order, e.g.
+
+    client   [Initial: CRYPTO(ClientHello, one frame or fragments in any order) PADDING…] (one or several datagrams)
+    server   [Initial: ACK CRYPTO(ServerHello)] [Handshake: CRYPTO(EncryptedExtensions ‖ Certificate ‖ …)]   coalesced,
+             or each in its own datagram; further [Handshake: CRYPTO(… ‖ CertificateVerify ‖ Finished)]
+    client   [Initial: ACK] [Handshake: ACK CRYPTO(Finished)]
+    server   [Handshake: ACK]            (HANDSHAKE_DONE travels in a 1-RTT packet: first datagram of the 1-RTT history)
+
+`PkH` is a sender decision (`SPkt`, level Initial or Handshake) with the header-protection mask its sender computed;
+`longOf` its RFC 9000 §17.2 wire format. Connection IDs of any length 0..20 on either side. What each packet has to
+satisfy is `Props.C02Capstone.HsPkOk` (it refers to the keys of its level). -/
+
+def ltypeOf : Level → LType
+  | .initial => .initial
+  | .zeroRtt => .zeroRtt
+  | _ => .handshake
+
+/-- RFC 9000 §17.2 for a sender decision: 1 1 TT RR PP, Version, DCID, SCID, [Token], Length, Packet Number, Payload -/
+def longOf (x : SPkt) (payload : Bytes) : Long :=
+  { ty := ltypeOf x.level, reserved := x.lowBits % 4, version := x.version, dcid := x.dcid, scid := x.scid,
+    tokenW := x.tokW, token := x.token, lenW := x.lenW, pn := pnBytes x.pnLen x.pn, payload := payload }
+
+structure PkH where
+  x : SPkt
+  /-- `header_protection(hp_key, sample)` as the sender computed it -/
+  mask : Bytes
+
+def PkH.wire (sealFn : Seal) (alg : Alg) (k : DirKeys) (q : PkH) : Bytes :=
+  (longOf q.x (protectedPayload sealFn alg k q.x)).protect q.mask
+
+/-- what makes the sender decision a QUIC v1 long-header packet: type bits of its level, version 1, connection IDs of at
+    most 20 bytes, varint widths that fit, 1–4 packet-number bytes -/
+structure LongShape (x : SPkt) : Prop where
+  level : x.level = .initial ∨ x.level = .handshake
+  typeBits : x.typeBits = (ltypeOf x.level).bits
+  version : x.version = [0, 0, 0, 1]
+  dcid : x.dcid.length ≤ 20
+  scid : x.scid.length ≤ 20
+  tok : x.tokW.fits x.token.length
+  len : x.lenW.fits (x.pnLen + (encodeAll x.frames).length + 16)
+  /-- RFC 9001 §5.4.2: padded so that the header-protection sample exists -/
+  padded : 4 ≤ x.pnLen + (encodeAll x.frames).length
+
+structure DgH where
+  srv : Bool
+  ts : Nat
+  pkts : List PkH
+
+/-- RFC 9000 §7.2 / §5.1: what an observer learns from an Initial packet — the sender's Source Connection ID is one of
+    its own, the Destination Connection ID one the receiver is addressed by -/
+def learnFrom (cc sc : List Bytes) (x : SPkt) : List Bytes × List Bytes :=
+  if x.level = .initial then
+    (if x.srv then (issue cc [x.dcid], issue sc [x.scid]) else (issue cc [x.scid], issue sc [x.dcid]))
+  else (cc, sc)
+
 end TLX.Spec.QuicConnection
